@@ -17,14 +17,16 @@ THEOREMS = {
         "proj_adj_eq_partial",
         "proj_adj_both_refuted",
         "proj_adj_eq_fixed",
+        "proj_tombstone_refuted",
         "numNodes_eq",
         "reach_fuel_sufficient",
         "reach_eq",
-        "bfsTree_partial",
+        "bfsTree_dist_eq",
         "normalize_iso",
         "segment_roundtrip",
         "c14_full_refuted",
         "c14_fixed",
+        "c14_partial",
     ]],
 }
 
@@ -100,7 +102,8 @@ SPEC = {
     "level": "proof",
     "lean_modules": ["Dawgs.Props.C14"],
     "theorems_by_module": THEOREMS,
-    "gate_modules": ["Dawgs.Model.C14", "Dawgs.Spec.C14", "Dawgs.Proofs.C14", "Dawgs.Proofs.C14Csr", "Dawgs.Proofs.C14Reach", "Dawgs.Props.C14"],
+    "gate_modules": ["Dawgs.Model.C14", "Dawgs.Spec.C14", "Dawgs.Proofs.C14", "Dawgs.Proofs.C14TS", "Dawgs.Proofs.C14Csr", "Dawgs.Proofs.C14Reach",
+                     "Dawgs.Proofs.C14Bfs", "Dawgs.Proofs.C14Norm", "Dawgs.Proofs.C14Seg", "Dawgs.Proofs.C14Glue", "Dawgs.Props.C14"],
     "suites": [{"name": "c14", "model_suite": "c14" if MODEL_MODE == "current" else "c14fixed", "monitor_suite": "c14mon",
                 "keep_prefix": 2, "shrink_budget": 60, "thorough_seeds": 1}],
     "nontrivial": nontrivial,
@@ -129,11 +132,32 @@ SPEC = {
         "ids are < 2^64 (the Go code cannot represent others); the Lean theorems hold for all naturals",
         "EachAdjacentNode multiplicity is not part of the property: answers are compared as sets by the monitor and as exact callback sequences by the model tie",
         "TSBFS/TSDFS: modelled and tied, judged by the monitor against the naive maximal-walk enumeration; no Lean theorem (covered by tie + monitor only)",
-        "BFSTree: exact shortest distances are judged by the monitor on every case; the Lean theorem bfsTree_partial proves soundness (every reported (v,d) is the end of a d-step walk, d>=1, reported once, reported set = Reach) — minimality of d is the missing piece",
+        "Reach/BFSTree theorems are stated for the queue loops with fuel NumNodes+1 (proved sufficient, reach_fuel_sufficient); the Go loops are unbounded",
         "BFSTreeFile.ReadEach is exercised only on files below one 4096-byte read buffer, where the current code deterministically yields no record",
     ],
     "explanation": "Lean proofs over all build histories + differential tie + monitor on the real containers",
 }
+
+def run(spec, tier, seed, replay):
+    """Generic flow, with one local refinement: flow.first_reject reports only the FIRST rejection of a case, so a
+    listed known-defect class early in a case would hide a new violation later in the same case. Prefer a rejection whose
+    class is not one of the listed shapes (suggested for lib/flow.py: group ALL distinct classes of a case)."""
+    import flow
+
+    def first_reject(mon):
+        first = None
+        for i, l in enumerate(mon):
+            if l.startswith("reject"):
+                toks = l.split()
+                if len(toks) < 2 or toks[1] not in CLASS_KEYS:
+                    return i, l
+                if first is None:
+                    first = (i, l)
+        return first
+
+    flow.first_reject = first_reject
+    return flow.run_property(spec, tier, seed, replay)
+
 
 MANIFEST = {
     "category": "proof",
@@ -141,8 +165,8 @@ MANIFEST = {
     "text": "Lean theorems over ALL build histories (arbitrary ids, self loops, parallel/antiparallel edges, isolated nodes): the adjacency map, the CSR "
             "digraph (offset invariant proved by induction over the builder and fill loops) and — for outbound/inbound — the triple store and every "
             "deleted-node/deleted-edge projection present exactly the edge list's adjacency sets and node count; Reach equals >=1-step reachability with "
-            "fuel |nodes|+1 proved sufficient; Normalize is an isomorphism; segment marshalling round-trips. For `both` the current triple store and "
+            "fuel |nodes|+1 proved sufficient; BFSTree reports every reachable node once with the length of a SHORTEST walk; Normalize is an isomorphism; segment marshalling round-trips. For `both` the current triple store and "
             "projection are REFUTED by witness (known findings) and proved for the repaired definitions. The models are transcriptions of container/*.go "
             "compared with the real code on exhaustive small graphs and random multigraphs every run, and the real answers are judged by the spec monitor.",
-    "note": "BFS distances: soundness proved, minimality checked by the monitor only. TSBFS/TSDFS and BFSTreeFile: tie + monitor only. Trusted: Lean kernel, roaring bitmaps, Go maps, deque, gzip.",
+    "note": "TSBFS/TSDFS and BFSTreeFile: tie + monitor only (no Lean theorem). Trusted: Lean kernel, roaring bitmaps, Go maps, deque, gzip.",
 }
